@@ -204,7 +204,10 @@ class MPRNLRI(Attribute, Family):
                 raise Notify(
                     3, 0, 'unsupported family {} {} with extended next-hop capability enabled'.format(afi, safi)
                 )
-            length, _ = Family.size[(nh_afi, safi)]
+            # only the families RFC 8950 applies to have an entry for the next hop AFI: the others
+            # (VPLS, EVPN, BGP-LS, ...) keep the next hop sizes of their own family
+            if (nh_afi, safi) in Family.size:
+                length, _ = Family.size[(nh_afi, safi)]
 
         if len_nh not in length:
             raise Notify(
